@@ -4,6 +4,7 @@ C19 — One writer at a time; read-only handles never modify data.
 import Klev.Proofs.FlockProofs
 import Klev.Proofs.Reach
 import Klev.Gen.Facts
+import Klev.Proofs.Witness
 namespace Klev.C19
 
 /-- Structural facts of the current source (regenerated on every run by go/ast): `Open`
@@ -68,6 +69,38 @@ theorem reads_keep_log_files (l : Log) (hinv : Inv l) (off : Int) (mc : Nat) :
   ⟨(consume_loaded l hinv off mc).shape, (get_loaded l hinv off).shape⟩
 
 end Klev.C19
+
+/-! ### Non-vacuity
+
+The lock theorems at concrete lock states; the handle theorems at the files of the witness log
+`Witness.wL` opened read-only with Check (`Witness.wRO`) and read-write with Recover
+(`Witness.wRW`) (`Klev/Proofs/Witness.lean`). -/
+section NonVacuity
+open Klev Klev.Witness
+
+example := Klev.C19.open_fails_while_writer ⟨1, 0⟩ rfl true
+example := Klev.C19.readers_admit_readers ⟨0, 2⟩ rfl (by decide)
+example := Klev.C19.close_releases ⟨1, 0⟩ (by unfold LockInv; decide) rfl
+example := Klev.C19.readonly_rejects wRO wRO_ro [(60, [9], [9])] [4]
+example := Klev.C19.readonly_same_content wL.disk wL_diskOK ooRO ooRec wRO wRW open_wRO open_wRW
+example := Klev.C19.reads_keep_log_files wL wL_inv 2 3
+example := Klev.C19.reads_keep_log_files wRO wRO_inv 7 3
+
+-- evaluated
+example : lockRun true ⟨0, 0⟩ [.openRO false, .openRW false, .openRO false, .closeRO, .closeRO, .openRW false,
+    .openRO false, .openRW true] = ⟨1, 0⟩ := by decide
+example : (wRO.publish [(60, [9], [9])]).2 = .err .readonly ∧ (wRO.delete [4]).2 = .err .readonly ∧
+    (abs wRO).live = (abs wL).live ∧ (abs wRW).live = (abs wL).live ∧ (abs wRO).next = 9 ∧ (abs wRW).next = 9 := by
+  decide
+-- the read-only handle answers like the read-write one
+example : (wRO.consume 3 2).2 = (wL.consume 3 2).2 ∧ (wRO.get 7).2 = (wL.get 7).2 ∧
+    (wRO.getByKey [1]).2 = (wL.getByKey [1]).2 ∧ (wRO.getByTime 20).2 = (wL.getByTime 20).2 ∧
+    (wRO.consume 9 1).2 = (wL.consume 9 1).2 ∧ (wRO.nextOffset).2 = .ok 9 := by decide
+-- … and its reads leave every log file as it was (indexes are loaded in memory only where a file exists)
+example : (wRO.getByTime 20).1.disk.map (fun d => (d.base, d.ver, d.recs)) =
+    wL.disk.map (fun d => (d.base, d.ver, d.recs)) := by decide
+
+end NonVacuity
 
 #print axioms Klev.C19.source_facts
 #print axioms Klev.C19.exclusion
